@@ -650,12 +650,27 @@ class C03(AstKindProp):
             except Exception as e:
                 impl = {"raises": exc_kind(e)}
             res.append(("func_attr", {"op": "func_attr", "param": p}, impl))
+        # the docstring the function / class emitters build (ToDocstring.lean), on the whole description, with the options
+        # of this case and one more combination drawn from the case itself
+        from doctrans import emitter_utils
+
+        k = zlib_mod(c)
+        for edd, lvl, et, st in {(bool(c["opts"].get("emit_default_doc", True)), int(c["opts"].get("indent_level", 1)), not c["opts"].get("inline_types"), True),
+                                 (k % 2 == 0, (k // 2) % 3, (k // 6) % 2 == 0, (k // 12) % 2 == 0)}:
+            try:
+                text = emitter_utils.to_docstring(self.py_ir(c["ir"]), emit_default_doc=edd, indent_level=lvl, emit_types=et, emit_separating_tab=st, word_wrap=False)
+                impl = {"ok": text}
+            except Exception as e:
+                impl = {"raises": exc_kind(e)}
+            res.append(("to_docstring", {"op": "to_docstring", "ir": c["ir"], "emit": edd, "indent_level": lvl, "emit_types": et, "emit_separating_tab": st}, impl))
         return res
 
     def canon_model(self, layer, op, ans):
         if layer == "func_attr" and "ok" in ans:
             o = ans["ok"]
             return {"ok": {"typ": _canon_type(o.get("typ")), "default": canon_val(o.get("default"))}}
+        if layer == "to_docstring":
+            return ans
         return AstKindProp.canon_model(self, layer, op, ans)
 
     def explain_kind(self, c):
